@@ -632,8 +632,8 @@ class ConnectorReal:
             st = self.streams.get(i)
             if s is None:
                 sock.append("none")
-            elif s.closed_calls > 0:
-                sock.append("closed")
+            elif s.closed_calls > 0 or (st is not None and st.fd_closed > 0):
+                sock.append("closed")       # socket.close() itself, or the stream's close_fd (the transport's close)
             elif st is not None and st._connect_future is None and not st._connecting:
                 sock.append("connected")
             else:
@@ -641,7 +641,9 @@ class ConnectorReal:
         return {"res": res, "sock": sock}, cls
 
     def _handler(self, idx):
-        st = self.streams[idx]
+        st = self.streams.get(idx)
+        if st is None:
+            return None
         r = st._registry.get(st._fd)
         return (r[0], st._fd) if r else None
 
@@ -698,7 +700,8 @@ def replay_conn(extra, path, variant=None, index=None):
                     return None
                 modes = sorted(set(cfg["mode"]))
                 return {"step": i, "act": s["act"], "args": s["args"], "exp": s["exp"], "obs": obs,
-                        "sig": {"act": s["act"], "modes": modes, "exp_res": s["exp"]["res"][:2] if s["exp"]["res"][0] != "ok" else ["ok"],
+                        "sig": {"act": s["act"], "modes": modes, "module": "Connector",
+                                "create_failure": any(m in ("sockerr", "streamerr") for m in modes), "exp_res": s["exp"]["res"][:2] if s["exp"]["res"][0] != "ok" else ["ok"],
                                 "obs_res": obs["res"][:2] if obs["res"][0] != "ok" else ["ok"], "obs_class": cls or "none",
                                 "sock_differs": obs["sock"] != s["exp"]["sock"],
                                 "leak": any(o in ("connecting", "connected") and e in ("closed", "none")
